@@ -1107,6 +1107,28 @@ func genMutOps(t *rapid.T) []MutOp {
 }
 
 func gen(t *rapid.T) Case {
+	c := gen1(t)
+	if pbt.Fuzzing() {
+		// keep single inputs cheap under the fuzzing engine (its workers are killed when one
+		// input takes seconds): no large bombs, no oversized resolver bodies, bounded width/depth
+		if c.BombMiB > 11 {
+			c.BombMiB = 11
+		}
+		for i, f := range c.Faults {
+			if f == "oversized" {
+				c.Faults[i] = "garbage"
+			}
+		}
+		for i := range c.Ops {
+			if c.Ops[i].Kind == "wide" || c.Ops[i].Kind == "deep" {
+				c.Ops[i].J %= 60
+			}
+		}
+	}
+	return c
+}
+
+func gen1(t *rapid.T) Case {
 	switch rapid.IntRange(0, 13).Draw(t, "kind") {
 	case 0, 1, 2, 3:
 		entry := rapid.SampledFrom([]string{"xml", "post", "artifact"}).Draw(t, "entry")
